@@ -100,10 +100,9 @@ Definition corr_rtf_gen (is_ws is_word : N -> bool) (c : bool * str * list (list
   str_eqb text (rtf_r_doc_gen tight sep g) && tables_eqb (rtf_tables is_ws is_word text) r.
 
 (* decks: slides of frames (rank of y, rank of x, content); result None = the extractor raised *)
-Definition corr_odp_deck (c : list (list (nat * nat * option xml)) * option (list (list (list str)))) : bool :=
-  let slides := map (map (fun f : nat * nat * option xml =>
-                     let '(y, x, t) := f in ((y, x), option_map (odp_table (lookup_int []) ODF_SKIP) t))) (fst c) in
-  opt_eqb tables_eqb (Some (deck_tables slides)) (snd c).
+Definition corr_odp_deck (c : list xml * option (list (list (list str)))) : bool :=
+  (* pages as parsed (frames possibly inside nested draw:g), frames carry rank:y / rank:x *)
+  opt_eqb tables_eqb (Some (flat_map (odp_page_tables (lookup_int []) ODF_SKIP) (fst c))) (snd c).
 Definition corr_pptx_deck (is_ws : N -> bool) (c : list (list (nat * nat * option xml)) * option (list (list (list str)))) : bool :=
   let slides := map (map (fun f : nat * nat * option xml =>
                      let '(y, x, t) := f in ((y, x), match t with Some fr => pptx_table is_ws fr | None => None end))) (fst c) in
